@@ -1,0 +1,41 @@
+//go:build verif
+
+package rpc
+
+import (
+	"reflect"
+	"sort"
+)
+
+// VerifMethod describes one callback a server actually serves (verification harness only).
+type VerifMethod struct {
+	Name      string         // namespace_method
+	Args      []string       // Go types of the arguments (without the context)
+	Types     []reflect.Type // the same, as types
+	Subscribe bool
+}
+
+// VerifMethods lists the callbacks registered on the server.
+func VerifMethods(s *Server) []VerifMethod {
+	var out []VerifMethod
+	for _, svc := range s.services {
+		for name, cb := range svc.callbacks {
+			m := VerifMethod{Name: svc.name + "_" + name}
+			for _, t := range cb.argTypes {
+				m.Args = append(m.Args, t.String())
+				m.Types = append(m.Types, t)
+			}
+			out = append(out, m)
+		}
+		for name, cb := range svc.subscriptions {
+			m := VerifMethod{Name: svc.name + "_" + name, Subscribe: true}
+			for _, t := range cb.argTypes {
+				m.Args = append(m.Args, t.String())
+				m.Types = append(m.Types, t)
+			}
+			out = append(out, m)
+		}
+	}
+	sort.Slice(out, func(i, j int) bool { return out[i].Name < out[j].Name })
+	return out
+}
